@@ -32,6 +32,9 @@ type History struct {
 	PolA   string  `json:"setfinal_policy_a"`
 	PolB   string  `json:"setfinal_policy_b"`
 	Blocks []Block `json:"blocks"`
+	// Golden > 0: the first Golden blocks are the recorded ones (golden.go); instance A is fresh and executes all
+	// blocks, instance B starts on a copy of the recorded data directory and executes the others
+	Golden int `json:"recorded_blocks,omitempty"`
 	// Old lists re-executions of an OLDER block after later blocks; both instances perform them at the
 	// same place of the block sequence (everything else stays independent)
 	Old  []OldRe `json:"old_block_reexecutions,omitempty"`
@@ -158,22 +161,28 @@ func (g *gen) block(region string) Block {
 var policies = []string{"each", "lag2", "sparse", "late", "never", "early"}
 
 // ops builds the call sequence of one instance.
-func (g *gen) ops(h *History, policy string) []Op {
+func (g *gen) ops(h *History, policy string) []Op { return g.opsFrom(h, policy, 0) }
+
+// opsFrom builds the call sequence of an instance that starts with blocks [0, from) already executed.
+func (g *gen) opsFrom(h *History, policy string, from int) []Op {
 	rng := g.rng
 	var ops []Op
 	n := len(h.Blocks)
 	// where the first InitChain happens: normally before anything else
-	initAt := 0
+	initAt := from
 	if rng.Intn(8) == 0 {
-		initAt = rng.Intn(n + 1)
+		initAt = from + rng.Intn(n-from+1)
 	}
 	reopenP := 3
 	if h.Child {
 		reopenP = 9
 	}
-	executed := uint64(0) // exec ops issued so far (used only to pick plausible SetFinal heights)
+	executed := uint64(from) // exec ops issued so far (used only to pick plausible SetFinal heights)
 	lateAt := n/2 + rng.Intn(n-n/2)
-	nextBlock := 0
+	if lateAt < from {
+		lateAt = from
+	}
+	nextBlock := from
 	aux := func(max int) {
 		for k := rng.Intn(max + 1); k > 0; k-- {
 			switch p := rng.Intn(100); {
@@ -234,6 +243,9 @@ func (g *gen) ops(h *History, policy string) []Op {
 		}
 	}
 	for i, b := range h.Blocks {
+		if i < from {
+			continue
+		}
 		nextBlock = i
 		if i == initAt {
 			ops = append(ops, Op{K: "init"})
@@ -334,6 +346,30 @@ func (g *gen) history(id int, quick bool) History {
 	return h
 }
 
+// goldenHistory builds a case around the recorded data directory: the recorded blocks followed by 2-9 new ones.
+func (g *gen) goldenHistory(id int, gold *goldenFile) History {
+	rng := g.rng
+	h := History{ID: id, Region: "setfinal", Golden: len(gold.Blocks)}
+	h.Child = rng.Intn(6) == 0
+	h.Blocks = append(h.Blocks, gold.Blocks...)
+	for n := 2 + rng.Intn(8); n > 0; n-- {
+		h.Blocks = append(h.Blocks, g.block(h.Region))
+	}
+	a := rng.Intn(len(policies))
+	b := (a + 1 + rng.Intn(len(policies)-1)) % len(policies)
+	h.PolA, h.PolB = policies[a], policies[b]
+	h.OpsA = g.ops(&h, h.PolA)
+	h.OpsB = g.opsFrom(&h, h.PolB, h.Golden)
+	// the first look at the directory: the root before anything new is executed (one case in three starts
+	// without a call of InitChain, as a node whose stored height is past genesis does)
+	head := []Op{{K: "init"}, {K: "observe"}}
+	if rng.Intn(3) == 0 {
+		head = head[1:]
+	}
+	h.OpsB = append(head, h.OpsB...)
+	return h
+}
+
 // abstract is the canonical form used for distinct counting: region, block kinds, and the
 // operation-kind sequence of both instances.
 func (h History) abstract() string {
@@ -341,6 +377,9 @@ func (h History) abstract() string {
 	sb.WriteString(h.Region)
 	if h.Child {
 		sb.WriteString("/child")
+	}
+	if h.Golden > 0 {
+		fmt.Fprintf(&sb, "/recorded%d", h.Golden)
 	}
 	for _, o := range h.Old {
 		fmt.Fprintf(&sb, "/old%d-%d", o.After, o.Block)
@@ -413,5 +452,6 @@ func (h History) sample() any {
 		"id": h.ID, "region": h.Region, "reopen_by_child_process": h.Child,
 		"setfinal_policy": h.PolA + "/" + h.PolB, "old_block_reexecutions": h.Old,
 		"blocks": bl, "calls_a": opsString(h.OpsA), "calls_b": opsString(h.OpsB),
+		"recorded_blocks_already_in_the_directory_of_b": h.Golden,
 	}
 }
